@@ -48,6 +48,8 @@ NO_PANIC = [
 
 # Command-line front end (C20): argument parsing exits the process with a usage message instead of returning (outside the
 # property's quantifier "for every readable input file"); file I/O returns Results that main handles with expect (audited).
+NO_PANIC += ["std::option::Option::unwrap_or", "std::result::Result::unwrap_or", "std::option::Option::unwrap_or_default", "std::slice::get",
+             "core::slice::get", "std::option::Option::filter", "std::option::Option::zip", "std::option::Option::or", "std::option::Option::xor"]
 NO_PANIC += ["std::iter::Iterator::peekable", "std::iter::Peekable::peek", "std::iter::Peekable::next", "std::iter::Peekable::", "std::option::Option::copied",
              "std::iter::Iterator::copied", "std::iter::Iterator::by_ref", "std::iter::Iterator::count", "std::iter::Iterator::fold", "std::iter::Iterator::for_each",
              "std::iter::Iterator::last", "std::iter::Iterator::nth", "std::iter::Iterator::sum", "std::iter::Iterator::take_while", "std::iter::Iterator::skip_while",
@@ -76,6 +78,9 @@ def classify(callee):
     callee = _n(callee)
     for m in map(_n, MAY_PANIC):
         if m in callee:
+            # `Option::unwrap` must not match `Option::unwrap_or`, `unwrap_or_else`, `unwrap_or_default`
+            if m.endswith(("unwrap", "expect")) and _re.search(_re.escape(m) + r"_(or|or_else|or_default)\b", callee):
+                continue
             return "may-panic"
     for m in map(_n, CALLER_SUPPLIED):
         if m in callee:
